@@ -140,8 +140,14 @@ def make_limit_case(seed):
     status = over['1040.filing_status']
     if kind == 'foreign_tax':
         thr = lim['foreign_tax_1116']['threshold'].get(status, lim['foreign_tax_1116']['threshold']['other'])
-        style = rng.pick(['int', 'div', 'both', 'just_below'])
-        if style == 'just_below':
+        style = rng.pick(['int', 'div', 'both', 'just_below', 'between'])
+        if style == 'between':
+            # above the single-filer threshold, below the joint one
+            over['1099-int:0.box_6'] = str(rng.pick([300.01, 450, 600]))
+            style = None
+        if style is None:
+            pass
+        elif style == 'just_below':
             over['1099-int:0.box_6'] = str(thr)
         elif style == 'int':
             over['1099-int:0.box_6'] = str(thr + rng.pick([0.01, 1, 250]))
@@ -161,9 +167,14 @@ def make_limit_case(seed):
         n = rng.pick([14, 15, 16])
         which = rng.pick(['int', 'div'])
         over[f'1040.number_1099-{which}'] = str(n)
+        small = rng.chance(0.5)
         for k in range(n):
             over[f'1099-{which}:{k}.payer'] = f'Payer {k}'
-            over[f'1099-{which}:{k}.box_1' if which == 'int' else f'1099-div:{k}.box_1a'] = str(rng.pick([200, 400]))
+            amt = rng.pick([200, 400])
+            if small:
+                # the listed rows alone stay below the Schedule B threshold, the total does not
+                amt = 100 if k < 14 else 250
+            over[f'1099-{which}:{k}.box_1' if which == 'int' else f'1099-div:{k}.box_1a'] = str(amt)
     elif kind == 'educator_expenses':
         over['1040_s1.educator_expenses'] = str(rng.pick([500, 500.01, 501, 2000]))
     else:
